@@ -237,6 +237,11 @@ def rich_compare(interp, name, a, b, text='', pure=False):
             return Atom(name, [a, b], 'bool')
         if ka is not None and kb is not None and ka != kb:
             return Const(name == 'ne')
+        for x, y in ((a, b), (b, a)):
+            if isinstance(x, Sym) and getattr(x, 'lang', None) and isinstance(y, Const) and isinstance(y.value, str):
+                import re as _re
+                if _re.fullmatch(x.lang, y.value) is None:
+                    return Const(name == 'ne')      # the constant is outside the language of the symbolic text
         if k(a) == k(b) and ka not in ('num',):     # same symbolic value (NaN aside for numbers handled below)
             return Const(name == 'eq')
         if k(a) == k(b):
